@@ -15,6 +15,7 @@ import TboxModel.C19.B64Proofs
 import TboxModel.C19.CrcProofs
 import TboxModel.C19.UrlHexProofs
 import TboxModel.C19.Md5Proofs
+import TboxModel.C19.Md5SpecProofs
 import TboxModel.C19.AesProofs
 namespace Tbox.C19
 set_option maxRecDepth 100000
@@ -437,13 +438,23 @@ theorem C19_hex_roundtrip (upper : Bool) (delim x : List UInt8) (hd : delim = []
 example : Hex.delimOk false [58, 32] := by unfold Hex.delimOk; decide
 example : Hex.toVec (Hex.rawToHex false [58, 32] [0xAB, 0x01]) [58, 32] = ⟨none, [0xAB, 0x01]⟩ := by decide +kernel
 
-/-! ## 8. MD5: split independence -/
--- OPEN (false as stated, see the counterexample)  C19_md5_split : ∀ P ps qs, ps.flatten = qs.flatten → digestSplit P ps = digestSplit P qs
-/-- `C19_md5_split_partial`: for EVERY message and EVERY two ways of feeding it to `update` (any number of pieces,
-empty pieces included) the digests are equal — provided every single update is shorter than 2^29 bytes (512 MiB).
-The hypothesis is needed: see `C19_md5_count_counterexample`. -/
-theorem C19_md5_split_partial (P : Md5.Params) (ps qs : List (List UInt8)) (h : ps.flatten = qs.flatten)
-    (hp : ∀ p ∈ ps, p.length < 2 ^ 29) (hq : ∀ q ∈ qs, q.length < 2 ^ 29) :
+/-! ## 8. MD5: equality with RFC 1321 and split independence (after fix C19-05) -/
+/- The only size hypothesis left is that one `update` call is shorter than 2^61 bytes: `plain_text_len << 3` is computed in
+   a 64-bit size_t (no object of that size can exist). The total length is unrestricted: the bit counter is kept modulo 2^64
+   exactly as RFC 1321 §3.2 prescribes. -/
+
+/-- `C19_md5_eq_spec`: for EVERY message and EVERY way of feeding it to `update` (any number of pieces, empty ones included),
+the transcribed MD5 — context initialisation, the buffering of `update`, the bit counter, the padding and length block of
+`finish`, the 64 steps with the tables as they are in the source — returns exactly `Spec.md5` of the concatenation: the
+RFC 1321 definition written independently (explicit padding, 512-bit blocks, rotating variables, T[i] from the sine). -/
+theorem C19_md5_eq_spec (pieces : List (List UInt8)) (hp : ∀ p ∈ pieces, p.length < 2 ^ 61) :
+    Md5.digestSplit Md5.gen pieces = Spec.md5 pieces.flatten :=
+  Md5.digestSplit_spec pieces hp
+
+/-- `C19_md5_split`: the digest does not depend on how the message is split into updates (for any step table, not only
+the standard one: this is a property of the buffering code alone) -/
+theorem C19_md5_split (P : Md5.Params) (ps qs : List (List UInt8)) (h : ps.flatten = qs.flatten)
+    (hp : ∀ p ∈ ps, p.length < 2 ^ 61) (hq : ∀ q ∈ qs, q.length < 2 ^ 61) :
     Md5.digestSplit P ps = Md5.digestSplit P qs := by
   unfold Md5.digestSplit
   have r1 := Md5.repr_foldl P ps _ [] (Md5.repr_init P) hp
@@ -453,15 +464,18 @@ theorem C19_md5_split_partial (P : Md5.Params) (ps qs : List (List UInt8)) (h : 
   exact Md5.finish_eq P _ _ _ r1 r2
 
 /-- in particular any split equals the one-shot digest of the whole message -/
-theorem C19_md5_split_oneshot (P : Md5.Params) (ps : List (List UInt8)) (hp : ∀ p ∈ ps, p.length < 2 ^ 29)
-    (ht : ps.flatten.length < 2 ^ 29) : Md5.digestSplit P ps = Md5.digest P ps.flatten := by
+theorem C19_md5_split_oneshot (P : Md5.Params) (ps : List (List UInt8)) (hp : ∀ p ∈ ps, p.length < 2 ^ 61)
+    (ht : ps.flatten.length < 2 ^ 61) : Md5.digestSplit P ps = Md5.digest P ps.flatten := by
   unfold Md5.digest
-  exact C19_md5_split_partial P ps [ps.flatten] (by simp) hp (by simpa using ht)
+  exact C19_md5_split P ps [ps.flatten] (by simp) hp (by simpa using ht)
+
+example : Spec.md5 [0x61, 0x62, 0x63] = [0x90, 0x01, 0x50, 0x98, 0x3c, 0xd2, 0x4f, 0xb0, 0xd6, 0x96, 0x3f, 0x7d, 0x28, 0xe1, 0x7f, 0x72] := by
+  decide +kernel
 
 /-- the bit counter of `update` with the 64-bit comparison (`count_[0] < (plain_text_len << 3)`, the code before fix
 C19-05) after ONE update of 2^29 bytes differs from the counter after the same bytes fed as two updates of 2^28 bytes: the
 carry into `count_[1]` is counted twice for a single update of ≥ 512 MiB; with the 32-bit comparison both agree. The full
-statement without the length hypothesis is therefore false of that code (replay: props/C19/md5_big_update.ops — the real
+statement was therefore false of that code (replay: props/C19/md5_big_update.ops — the real
 implementation returns d3fbf790… instead of aa559b4e… for 2^29 zero bytes in one update). -/
 theorem C19_md5_count_counterexample :
     Md5.countUpdateW true 0 0 (2 ^ 29) = (0, 2) ∧
